@@ -102,3 +102,37 @@ def reloadResult (cur : Option SrvAttrs) (rec : Option SrvAttrs) : Option SrvAtt
   | _ => rec
 
 end TmVerif.LoaderDecode
+
+namespace TmVerif.LoaderDecode
+
+/-- What `load_allocations` sets on the allocation a record names: rank, rank adjustment (kept when the record
+    has none), utilisation cap ×1000 (`none` = unlimited) and the reserved vector. -/
+structure AllocAttrs where
+  rank : Int
+  rankAdj : Int
+  maxUtil : Option Int
+  reserved : Int × Int × Int
+  deriving DecidableEq, Repr
+
+/-- A freshly created `Allocation()` (what `get_sub_alloc` makes for a path component nobody configured). -/
+def AllocAttrs.fresh : AllocAttrs := { rank := 100, rankAdj := 0, maxUtil := none, reserved := (0, 0, 0) }
+
+/-- One record of /allocations as far as `Allocation.update` goes. -/
+structure AllocRec where
+  name : Nat                    -- interned full name (`tenant/alloc`)
+  rank : Int
+  rankAdj : Option Int
+  maxUtil : Option Int
+  reserved : Int × Int × Int
+  deriving Repr
+
+/-- `Allocation.update(reserved, rank, rank_adjustment, max_utilization)`. -/
+def applyRec (a : AllocAttrs) (r : AllocRec) : AllocAttrs :=
+  { rank := r.rank, rankAdj := r.rankAdj.getD a.rankAdj, maxUtil := r.maxUtil, reserved := r.reserved }
+
+/-- The attributes of the allocation named `name` after `load_allocations` went through `records` in order:
+    only records naming it touch it. -/
+def allocAfter (records : List AllocRec) (name : Nat) (a : AllocAttrs := AllocAttrs.fresh) : AllocAttrs :=
+  (records.filter (fun r => r.name = name)).foldl applyRec a
+
+end TmVerif.LoaderDecode
